@@ -5,6 +5,7 @@
 //! a file of case lines (`--cases <file>`).
 use std::collections::BTreeSet;
 use std::panic::{AssertUnwindSafe, catch_unwind};
+thread_local! { static LAST_PANIC: std::cell::RefCell<String> = std::cell::RefCell::new(String::new()); }
 
 use mdk_core::extension::NostrGroupDataExtension;
 use mdk_verif_harness::out::{Run, arg, hex, hexlist};
@@ -236,7 +237,8 @@ fn enc_case(raw: &RawExt) -> Option<String> {
 }
 
 fn main() {
-    std::panic::set_hook(Box::new(|_| {}));
+    // panics are caught; the hook remembers WHERE the last one was raised (ground truth for classifying it)
+    std::panic::set_hook(Box::new(|info| { let loc = info.location().map(|l| l.file().to_string()).unwrap_or_default(); LAST_PANIC.with(|p| *p.borrow_mut() = loc); }));
     let out = arg("--out").unwrap_or("/verif/.cache/run/codec".into());
     let mut run = Run::new(&out, "generated extension values (all 16 presence patterns, boundary lengths 63/64/16383/16384, multi-byte UTF-8, duplicate admins, normalising relay urls) encoded and decoded, plus 16 kinds of structure-aware single-field mutation of each valid encoding; non-trivial = distinct case text that is either a mutation or a value with at least one optional field, admin or relay");
     if let Some(f) = arg("--cases") {
@@ -288,7 +290,10 @@ fn main() {
                 run.oracle_fail("C15", "vector-element-overrun", "admin vector whose declared length is not a multiple of 32 accepted (elements read past the declared length)".into(), line.clone());
             }
             if res == "PANIC" {
-                let cls = if class == "len-prefix-8byte" { "tls-codec-debug-assert-8byte-length" } else { "" };
+                // the known finding is the debug assertion in tls_codec's variable-length-integer code, whichever mutation produced
+                // the 8-byte length form
+                let at = LAST_PANIC.with(|p| p.borrow().clone());
+                let cls = if class == "len-prefix-8byte" || (at.contains("tls_codec") && at.contains("quic_vec")) { "tls-codec-debug-assert-8byte-length" } else { "" };
                 run.oracle_fail("C06", cls, "panic inside the group-data extension parser".into(), line.clone());
             }
             run.case(&format!("mut-{class}"), true, line, res);
